@@ -7,7 +7,7 @@
     state, equality of states is the strongest possible form of "behaves exactly like".  That the Rust reset really
     assigns every field is checked by the correspondence run (probes whose outcome depends on leaked state). *)
 Require Import Zrs.lib.RsPrelude Zrs.gen.Generated Zrs.model.Headers Zrs.model.FseDec Zrs.model.HufDec Zrs.model.BlockDec Zrs.model.FrameDec.
-Require Import Zrs.proofs.C07_Reuse.
+Require Import Zrs.proofs.C07_Reuse Zrs.proofs.C07_Alphabets.
 Open Scope Z_scope.
 
 Theorem C07_scratch_reset_eq_new : forall sc w, scratch_alphabets_ok sc -> scratch_reset sc w = scratch_new w.
@@ -24,5 +24,23 @@ Theorem C07_reset_eq_fresh : forall d src,
   end.
 Proof. exact reset_eq_fresh. Qed.
 
+(** unconditional: for every decoder state reachable from a new decoder through any sequence of the public operations
+    (set_max_window, add_dict, reset/init, force_dict, decode_blocks with any strategy, collect, read,
+    collect_to_writer with any sink), with whatever frames -- valid, truncated, corrupted -- were fed before *)
+Theorem C07_reused_decoder_equals_fresh : forall d src, reachable d ->
+  match fdec_reset d src,
+        fdec_reset {| fd_state := None; fd_dicts := fd_dicts d; fd_max_window := fd_max_window d |} src with
+  | ROk (d1, r1, _), ROk (d2, r2, _) => d1 = d2 /\ r1 = r2
+  | RErr e1, RErr e2 => e1 = e2
+  | RPanic e1, RPanic e2 => e1 = e2
+  | _, _ => False
+  end.
+Proof. exact reused_decoder_equals_fresh. Qed.
+
+Theorem C07_alphabet_invariant_of_reachable_states : forall d, reachable d -> state_alphabets_ok d.
+Proof. exact reachable_alphabets. Qed.
+
+Print Assumptions C07_reused_decoder_equals_fresh.
+Print Assumptions C07_alphabet_invariant_of_reachable_states.
 Print Assumptions C07_scratch_reset_eq_new.
 Print Assumptions C07_reset_eq_fresh.
